@@ -39,8 +39,8 @@ def edge_names(conn) -> List[Tuple[str, str]]:
 def plan(tier: str, seed: int) -> List[Dict[str, Any]]:
     shards = [{"kind": "enum", "tier": tier, "part": i, "parts": 14, "hashseed": 0, "seed": common.seed_base(seed, 16)} for i in range(14)]
     nseq = 60 if tier == "quick" else 400
-    shards.append({"kind": "sequences", "n": nseq, "seed": common.seed_base(seed, 161), "hashseed": 0})
-    shards.append({"kind": "sequences", "n": nseq, "seed": common.seed_base(seed, 162), "hashseed": 0})
+    shards.append({"kind": "sequences", "n": nseq, "seed": common.seed_base(seed, 161), "hashseed": 1})
+    shards.append({"kind": "sequences", "n": nseq, "seed": common.seed_base(seed, 162), "hashseed": 2})
     return shards
 
 
@@ -182,7 +182,7 @@ def run_shard(shard: Dict[str, Any]) -> Acc:
             if i % shard["parts"] != shard["part"]:
                 continue
             acc.case("-".join(map(str, idx)), len(idx) >= 2, sample={"edges": [list(model.edges[j]) for j in idx]})
-            check_subset(idx, conn, model, lib_edges, acc)
+            common.guarded(acc, check_subset, idx, conn, model, lib_edges, acc, case={"edges": [list(model.edges[j]) for j in idx]})
         return acc
     rng = random.Random(shard["seed"])
     for i in range(shard["n"]):
